@@ -19,7 +19,29 @@ TARGETS = {
     "sm3_base": ("sm3_mb/sm3_ctx_base.c", "sm3_single", "SM3"),
     "sha1_for_mh": ("mh_sha1/sha1_for_mh_sha1.c", "_sha1_single_for_mh_sha1", "SHA1"),
     "sha256_for_mh": ("mh_sha256/sha256_for_mh_sha256.c", "sha256_single_for_mh_sha256", "SHA256"),
+    # the C block functions of the multi-hashes: segment g_s (arbitrary) of the interleaved block
+    "mh_sha1_block": ("mh_sha1/mh_sha1_block_base.c", "mh_sha1_single", "MHSHA1"),
+    "mh_sha256_block": ("mh_sha256/mh_sha256_block_base.c", "mh_sha256_single", "MHSHA256"),
 }
+
+MH_HARNESS = r"""
+/* ---- harness (appended by the overlay) ---- */
+#include <stdlib.h>
+#ifdef VF_WITH_CANARY
+#define VF_CANARY() __CPROVER_assert(0, "vf_canary: end of harness reachable")
+#else
+#define VF_CANARY() ((void) 0)
+#endif
+void vf_h_single(void)
+{
+        uint8_t *input = malloc(1024);
+        uint32_t (*digests)[ISAL_HASH_SEGS] = malloc(S_NS * 16 * sizeof(S_WORD));
+        uint8_t *fb = malloc(1024);
+        __CPROVER_assume(input && digests && fb);
+        %(fn)s(input, digests, fb);
+        VF_CANARY();
+}
+"""
 
 HARNESS = r"""
 /* ---- harness (appended by the overlay) ---- */
@@ -43,10 +65,12 @@ V = r"(\w+)"
 
 
 def _rules(fn, alg, text):
+    mh = alg.startswith("MH")
     rules = [
-        overlay.Rule("prelude", r'(?s)\A.*^#include "[^\n]*\n(?P<at>)',
-                     "\n/* ---- inserted by vf/compress.py ---- */\n#define VF_ALG_%s 1\n#include \"compress_prelude.h\"\n" % alg),
-        overlay.func_def_rule(fn, "VF_C_SINGLE_FN"),
+        overlay.Rule("prelude", r'(?s)\A.*^#include "[^\n]*\n(?:#include <[^\n]*\n)*(?P<at>)',
+                     "\n/* ---- inserted by vf/compress.py ---- */\n%s#define VF_ALG_%s 1\n#include \"compress_prelude.h\"\n"
+                     % ("#define VF_MH_SEG 1\n" if mh else "", alg[2:] if mh else alg)),
+        overlay.func_def_rule(fn, "VF_C_MH_SINGLE_FN" if mh else "VF_C_SINGLE_FN"),
     ]
 
     def scoped(r):
@@ -84,10 +108,32 @@ def _rules(fn, alg, text):
         rules.append(scoped(overlay.Rule("cut", pat, cut, count=64)))
         rules.append(scoped(overlay.Rule("begin", r"(?P<at>)^[ \t]*step\(0, " + ", ".join([V] * 4) + ",",
                                          lambda m: "        VF_BEGIN4(%s);\n" % ", ".join(m.groups()[1:5]))))
+    elif alg == "MHSHA1":
+        pat = r"^[ \t]*step\d\d_\d\d\((\d+), " + ", ".join([V] * 5) + r", w(?:, ww)?\);(?P<at>)"
+
+        def cut(m):
+            p = m.groups()[1:6]
+            return " VF_MHCUT5(%s, %s);" % (m.group(1), ", ".join([p[4]] + list(p[:4])))
+
+        rules.append(scoped(overlay.Rule("cut", pat, cut, count=80)))
+        rules.append(scoped(overlay.Rule("begin", r"(?P<at>)^[ \t]*step00_15\(0, " + ", ".join([V] * 5) + ",",
+                                         lambda m: "        VF_MHBEGIN5(%s);\n" % ", ".join(m.groups()[1:6]))))
+    elif alg == "MHSHA256":
+        pat = r"^[ \t]*step\((i(?: \+ \d)?), " + ", ".join([V] * 8) + r", k\[i(?: \+ \d)?\], t1, t2, w, ww\);(?P<at>)"
+
+        def cut(m):
+            p = m.groups()[1:9]
+            return " VF_MHCUT8(%s, %s);" % (m.group(1), ", ".join([p[7]] + list(p[:7])))
+
+        rules.append(scoped(overlay.Rule("cut", pat, cut, count=8)))
+        rules.append(scoped(overlay.Rule("begin", r"(?P<at>)^[ \t]*for \(i = 0; i < 64; i \+= 8\) \{\n[ \t]*step\(i, " + ", ".join([V] * 8) + ",",
+                                         lambda m: "        VF_MHBEGIN8(%s);\n" % ", ".join(m.groups()[1:9]))))
     elif alg == "SM3":
         rules.append(scoped(overlay.Rule("begin", r"(?P<at>)^[ \t]*sm3_message_schedule\(", "        VF_BEGIN8(a, b, c, d, e, f, g, h);\n")))
         rules.append(scoped(overlay.Rule("sched", r"^[ \t]*sm3_message_schedule\(\(uint32_t \*\) data, (\w+), (\w+)\);(?P<at>)",
                                          lambda m: " VF_SM3_SCHED(%s, %s);" % (m.group(1), m.group(2)))))
+        # the 64 rounds are a loop calling sm3_compress_step_func(): the loop is unwound (constant bound) and the cut's
+        # assertion is a switch over the round counter, so that every round is its own property / solver run
         rules.append(scoped(overlay.Rule(
             "cut", r"^[ \t]*sm3_compress_step_func\((\w+), &(\w+), &(\w+), &(\w+), &(\w+), &(\w+), &(\w+), &(\w+), &(\w+), \w+, \w+\);(?P<at>)",
             lambda m: " VF_CUT8L(%s);" % ", ".join(m.groups()[:9]))))
@@ -101,7 +147,7 @@ def annotate(key, workdir, repo=REPO):
     path = os.path.join(repo, rel)
     text = open(path).read()
     out, fired = overlay.apply(text, _rules(fn, alg, text))
-    out += HARNESS % {"fn": fn}
+    out += (MH_HARNESS if alg.startswith("MH") else HARNESS) % {"fn": fn}
     os.makedirs(workdir, exist_ok=True)
     dst = os.path.join(workdir, "compress_%s.c" % key)
     with open(dst, "w") as f:
@@ -121,17 +167,24 @@ def spec_selftest(workdir, algs):
             raise overlay.OverlayError("spec/round_specs.h (%s) does not reproduce the standard's example digest: %s" % (alg, r.stderr[-200:]))
 
 
-def jobs(workdir, keys=None, repo=REPO):
+def jobs(workdir, keys=None, repo=REPO, segs=range(16)):
+    """keys: names of TARGETS; an mh block target expands to one job per segment in `segs`"""
     js = []
-    spec_selftest(workdir, [TARGETS[k][2] for k in (keys or TARGETS)])
+    spec_selftest(workdir, [TARGETS[k][2].replace("MH", "") for k in (keys or TARGETS)])
     for key in (keys or TARGETS):
         rel, fn, alg = TARGETS[key]
         dst, fired, sha, rel = annotate(key, workdir, repo)
         inc = [os.path.join(repo, "include"), os.path.join(repo, os.path.dirname(rel)), os.path.join(VERIF, "contracts"),
                os.path.join(VERIF, "spec")]
-        js.append(Job("compress/%s" % key, [dst], entry="vf_h_single", enforce=fn, unwind=82, includes=inc,
-                      defines=["SAFE_DATA", "SAFE_PARAM", "NDEBUG"], timeout=600, mem_gb=8, solvers=["minisat", "cadical", "z3"], split="cut",
-                      expect_classes=["assertion", "postcondition"],
-                      meta={"file": rel, "sha256": sha, "aspect": "compress-vs-standard", "fired": len(fired), "cost": 60,
-                            "spec": "spec/round_specs.h (%s)" % alg}))
+        variants = [("", [])]
+        if alg.startswith("MH"):
+            variants = [("@seg%d" % k, ["VF_SEG_CONST=%du" % k]) for k in segs]
+        for suffix, extra in variants:
+            js.append(Job("compress/%s%s" % (key, suffix), [dst], entry="vf_h_single", enforce=fn, unwind=82, includes=inc,
+                          defines=["SAFE_DATA", "SAFE_PARAM", "NDEBUG"] + extra, timeout=600, mem_gb=8,
+                          solvers=["minisat", "cadical", "z3"], split="cut", expect_classes=["assertion", "postcondition"],
+                          # rol32(T, 0) in sm3_compress_step_func shifts by 32: DESIGN.md observation
+                          extra_cbmc=(["--no-undefined-shift-check"] if alg == "SM3" else []),
+                          meta={"file": rel, "sha256": sha, "aspect": "compress-vs-standard", "fired": len(fired), "cost": 60,
+                                "spec": "spec/round_specs.h (%s)" % alg.replace("MH", "segment %s of 16, " % (suffix[4:] or "g_s"))}))
     return js
